@@ -11,6 +11,17 @@ Binding A: exported vectors replayed into Opacity.opacity / KTable.opacity, clip
       + FluxBinner, and real Transmission / Emission models with two molecules on different grids.
 Binding B: random integer "constant-R like" grids through the real clip/binner/opacity, every
       event validated by TLC against the Grid operators + canary.
+Saturation cut-off (spec/Saturation.tla, MC_Saturation.tla, Trace_Saturation.tla): the licensed
+      exp(-10) deviation is a PER-POINT slack -- a contribution (transmission) or a layer term
+      (emission) may be missing at a wavenumber only where the layer is darker than the cut-off at
+      THAT wavenumber.  TLC proves that the documented rule ("skip when every computed wavenumber
+      is above 10", which depends on the computed set) stays inside this licence for every
+      pattern of optical depths and every computed subset / sub-range / observation clip, and
+      refutes any()-style coupling.  Exported input classes drive real Transmission / Emission
+      models with 2-4 contributions (molecules on different grids, a user-defined contribution,
+      CIA, Rayleigh) whose spectra have saturated bands and transparent windows in the same
+      layer: full grid vs. sub-grid vs. observation-restricted, judged per layer and per point;
+      every layer of every run pair is a trace event validated by TLC (+ canaries).
 """
 import random
 import re
@@ -699,7 +710,8 @@ def run_sat_case(ctx, case, events):
 
             def single(T, d, tt):
                 eq = np.abs(d - tt) <= 1e-9 * np.maximum(1.0, tt)
-                dark = (T <= EXP10 * (1 + 1e-12)) & ((d <= tt * (1 + 1e-9) + 1e-9) | ((T == 0.0) & (tt > 700.0)))
+                # beyond ~650 the transmittance is (close to) denormal and -ln() of it is no longer accurate
+                dark = (T <= EXP10 * (1 + 1e-12)) & ((d <= tt * (1 + 1e-9) + 1e-9) | ((d > 640.0) & (tt > 640.0)))
                 return eq | dark
             okf = single(tf, df, tot)
             ctx.verdict('saturation_skip_only_where_dark', bool(okf.all()), cls=cls + ':full-grid',
@@ -824,15 +836,19 @@ def validate_sat_events(ctx, events, canary=True):
                     c['Es'][w - e['a']] = -e['ed'][w - 1]
                     return c
         return None
+    canaries = []
     for evname in ('tx', 'em'):
         c = pick(evname)
         if c is None:
             if any(e['ev'] == evname and e['id'] in why for e in evs):
                 continue                                       # TLC rejected real events of this kind: not vacuous
             raise Machinery('no accepted coupled %s event available for the canary' % evname)
-        ok2, bad2, _ = validate_trace('Trace_Saturation', 'Trace_Saturation.cfg', [c])
-        if ok2 or not bad2:
-            raise Machinery('canary (%s: a contribution dropped in a transparent window) accepted: trace validation is vacuous' % evname)
+        canaries.append(c)
+    if canaries:
+        _, bad2, _ = validate_trace('Trace_Saturation', 'Trace_Saturation.cfg', canaries)
+        missed = [c['ev'] for c in canaries if c['id'] not in {x['id'] for x in bad2}]
+        if missed:
+            raise Machinery('canary (%s: a contribution dropped in a transparent window) accepted: trace validation is vacuous' % ','.join(missed))
     return count
 
 
@@ -845,6 +861,11 @@ def run_saturation(ctx, results, q):
         vecs = results['export-' + cfg].tagged('SAT')
         if len(vecs) < 500:
             raise Machinery('too few saturation vectors exported by %s: %d' % (cfg, len(vecs)))
+        for flag in ('txdiff', 'emdiff', 'disc', 'emdisc'):
+            if not any(x[flag] for x in vecs):
+                raise Machinery('vacuous: no exported vector of %s with %s' % (cfg, flag))
+        if not any(x['how'] == 'obs' for x in vecs):
+            raise Machinery('vacuous: no exported vector of %s restricted by an observation' % cfg)
         vecs = [x for x in vecs if any(x['lic'])]              # all-thin patterns are the optically thin model runs above
         rng.shuffle(vecs)
         for model, flag in (('transmission', 'disc'), ('emission', 'emdisc')):
@@ -926,13 +947,13 @@ def run(ctx):
             ('sat-any-coupling-refuted-pair', 'MC_Saturation', 'MC_Saturation_any_tx_refuted.cfg', 1, 'TxPointwiseLicensed'),
             ('sat-any-coupling-refuted-single-run', 'MC_Saturation', 'MC_Saturation_any_run_refuted.cfg', 1, 'TxRunLicensed'),
             ('sat-any-coupling-refuted-emission', 'MC_Saturation', 'MC_Saturation_any_em_refuted.cfg', 1, 'EmPointwiseLicensed'),
-            ('sat-nonvacuous-licence-used-tx', 'MC_Saturation', 'MC_Saturation_nonvac_tx.cfg', 1, 'TxNeverDiffers'),
-            ('sat-nonvacuous-licence-used-em', 'MC_Saturation', 'MC_Saturation_nonvac_em.cfg', 1, 'EmNeverDiffers'),
-            ('sat-nonvacuous-observation-clip', 'MC_Saturation', 'MC_Saturation_nonvac_obs.cfg', 1, 'NoObsRestriction'),
             ('export-EX_Saturation_2.cfg', 'MC_Saturation', 'EX_Saturation_2.cfg', 1, None),
             ('export-EX_Saturation_3.cfg', 'MC_Saturation', 'EX_Saturation_3.cfg', 1, None)]
-    if not q:
-        jobs += [('export-EX_Saturation_2m.cfg', 'MC_Saturation', 'EX_Saturation_2m.cfg', 1, None),
+    if not q:   # (in the quick tier the licence being used / observation clips occurring is visible in the exported vectors)
+        jobs += [('sat-nonvacuous-licence-used-tx', 'MC_Saturation', 'MC_Saturation_nonvac_tx.cfg', 1, 'TxNeverDiffers'),
+                 ('sat-nonvacuous-licence-used-em', 'MC_Saturation', 'MC_Saturation_nonvac_em.cfg', 1, 'EmNeverDiffers'),
+                 ('sat-nonvacuous-observation-clip', 'MC_Saturation', 'MC_Saturation_nonvac_obs.cfg', 1, 'NoObsRestriction'),
+                 ('export-EX_Saturation_2m.cfg', 'MC_Saturation', 'EX_Saturation_2m.cfg', 1, None),
                  ('export-EX_Saturation_4.cfg', 'MC_Saturation', 'EX_Saturation_4.cfg', 1, None)]
     from concurrent.futures import ThreadPoolExecutor
     pool = ThreadPoolExecutor(max_workers=8)
